@@ -90,6 +90,11 @@ class ModelShape:
         self.arglist_sensor = self.AS.concat(self.ACal)
         self.arglist_sensor.pvc_type = "list"
         P.ghost["env"] = self.E
+        # accepted models: names pairwise distinct within each symbol class (sympy symbols are identified by name)
+        a, b = z3.Int("na"), z3.Int("nb")
+        for f, cnt in ((self.AS_f, self.n), (self.ACal_f, self.c), (self.AU_f, self.k)):
+            P.facts.append(z3.ForAll([a, b], z3.Implies(z3.And(a >= 0, a < cnt, b >= 0, b < cnt, a != b), name_f(f(a)) != name_f(f(b)))))
+        P.facts.append(z3.ForAll([a, b], z3.Implies(z3.And(a >= 0, a < self.m, b >= 0, b < self.m, a != b), self.R_f(a) != self.R_f(b))))
 
     def seq(self, n, f, tag):
         s = SSeq(SInt(n), lambda i: SymV(f(i)), tag)
@@ -409,3 +414,661 @@ class MakeReading(Contract):
                 P.oblige(f"{pre}.data_is_argument", z3.Implies(use_data, z3.BoolVal(d is data)))
             P.oblige(f"{pre}.slot_by_name", z3.Implies(z3.And(z3.Not(use_data), r >= 0, r < ms.m), z3.And(to_int(d.rows()) == ms.m, to_int(d.cols()) == 1, d.el(r, 0) == z3.If(kw.has(ms.R_f(r)), kw.get(ms.R_f(r)), z3.RealVal(0)))))
         W.frame_unchanged(P, pre)
+
+
+# ------------------------------------------------------------------------------------------------
+# caller-side forms of the by-name contracts
+
+
+def oblige_alignment(I, site, what, data, sym_at, n):
+    """Precondition of the by-name contracts: the named input is the environment's value for each symbol."""
+    P = I.path
+    i = P.fresh_int("al")
+    E = P.ghost["env"]
+    P.oblige(f"{site}.pre.{what}_is_env", z3.Implies(z3.And(i >= 0, i < n), data.el(i, 0) == lookup_f(E, sym_at(i))))
+
+
+def world_of(I):
+    W = I.path.ghost.get("world")
+    if W is None:
+        raise Unsupported("filter method called outside a FilterWorld")
+    return W
+
+
+def jacobian_apply(which):
+    def apply(self, I, args, kwargs):
+        W = world_of(I)
+        ms = W.ms
+        site = I.path.ghost.get("site", "call")
+        E = ms.E
+        if which == "sensor_jacobian":
+            ekf, key, state = args
+            eq = I.equals(key, W.sensor_key)
+            if eq is not True:
+                from pvc.sym import to_bool
+
+                I.raise_if(z3.Not(to_bool(eq)), "KeyError")
+        else:
+            ekf, dt, state, control = args
+            I.path.oblige(f"{site}.pre.{which}.dt_is_env", to_real(dt) == lookup_f(E, ms.dt_sym))
+            oblige_alignment(I, f"{site}.pre.{which}", "control", control.fields["data"], ms.AU_f, ms.k)
+        oblige_alignment(I, f"{site}.pre.{which}", "state", state.fields["data"], ms.AS_f, ms.n)
+        if which == "process_jacobian":
+            rows, cols, cell = ms.n, ms.n, (lambda r, s: ev_f(diff_f(ms.F(r), ms.AS_f(s)), E))
+        elif which == "control_jacobian":
+            rows, cols, cell = ms.n, ms.k, (lambda r, s: ev_f(diff_f(ms.F(r), ms.AU_f(s)), E))
+        else:
+            rows, cols, cell = ms.m, ms.n, (lambda r, s: ev_f(diff_f(ms.H(r), ms.AS_f(s)), E))
+        term = z3.Const(I.path.names.fresh({"process_jacobian": "G", "control_jacobian": "V", "sensor_jacobian": "H"}[which]), Mat)
+        I.path.ghost.setdefault("jacobians", {}).setdefault(which, []).append(term)
+        return SMat(term, cells=cell, shape=(SInt(rows), SInt(cols)), ident=object())
+
+    return apply
+
+
+for _w in ("process_jacobian", "control_jacobian", "sensor_jacobian"):
+    pass
+JacobianContract.apply = lambda self, I, args, kwargs: jacobian_apply(self.which)(self, I, args, kwargs)
+
+
+class ModelModel(Contract):
+    """Model.model(dt, state, control=None)   [C01 obligation 4]
+    ensures  raises TypeError <=> control is None and control_size > 0; otherwise a State whose slot of every state
+             symbol s holds ev(state_model[s], E) for the environment E of the named inputs (dt, state, frozen calibration,
+             control; control None = zero control); frame: nothing."""
+
+    key = "formak.python:Model.model"
+
+    def __init__(self, control_none=False):
+        self.control_none = control_none
+        self.prefix = f"C01.py.Model.model[control_{'none' if control_none else 'given'}]"
+
+    def setup(self, I):
+        W = FilterWorld(I)
+        I.path.ghost["world"] = W
+        I.path.ghost["site"] = self.prefix
+        st = W.state()
+        ctl = None if self.control_none else W.control()
+        if self.control_none:
+            # control None stands for the zero control: the environment gives 0 to every control symbol
+            j = z3.Int("jz")
+            I.path.facts.append(z3.ForAll([j], z3.Implies(z3.And(j >= 0, j < W.ms.k), lookup_f(W.ms.E, W.ms.AU_f(j)) == 0)))
+        return Call([W.state_model, W.dt(), st, ctl], {}, W=W, state=st, state_data=st.fields["data"], old=dict(W.state_model.fields))
+
+    def post(self, I, call, outcome):
+        P = I.path
+        W, ms, pre = call.W, call.W.ms, self.prefix
+        must_refuse = z3.And(z3.BoolVal(self.control_none), ms.k > 0)
+        if outcome[0] == "raise":
+            P.oblige(f"{pre}.control_required.only_typeerror", z3.BoolVal(outcome[1] == "TypeError"), note=f"raises {outcome[1]}")
+            P.oblige(f"{pre}.control_required.raises_only_if", must_refuse)
+            return
+        P.oblige(f"{pre}.control_required.raises_if", z3.Not(must_refuse))
+        rv = outcome[1]
+        ok = isinstance(rv, SObj) and rv.cls is W.State and isinstance(rv.fields.get("data"), SMat)
+        P.oblige(f"{pre}.result_is_state", z3.BoolVal(ok))
+        if ok:
+            d = rv.fields["data"]
+            i = z3.Int("i_any")
+            P.oblige(f"{pre}.shape", z3.And(to_int(d.rows()) == ms.n, to_int(d.cols()) == 1))
+            P.oblige(f"{pre}.by_name", z3.Implies(z3.And(i >= 0, i < ms.n), d.el(i, 0) == ev_f(ms.F(i), ms.E)))
+        for f, v in call.old.items():
+            P.oblige(f"{pre}.frame.self.{f}", z3.BoolVal(W.state_model.fields.get(f) is v))
+        P.oblige(f"{pre}.frame.state", z3.BoolVal(call.state.fields["data"] is call.state_data))
+
+    def apply(self, I, args, kwargs):
+        W = world_of(I)
+        ms = W.ms
+        site = I.path.ghost.get("site", "call")
+        mdl, dt, state = args[0], args[1], args[2]
+        control = args[3] if len(args) > 3 else kwargs.get("control")
+        if control is None:
+            I.raise_if(ms.k > 0, "TypeError")
+            raise Unsupported("Model.model with control=None at a call site")
+        I.path.oblige(f"{site}.pre.model.dt_is_env", to_real(dt) == lookup_f(ms.E, ms.dt_sym))
+        oblige_alignment(I, f"{site}.pre.model", "state", state.fields["data"], ms.AS_f, ms.n)
+        oblige_alignment(I, f"{site}.pre.model", "control", control.fields["data"], ms.AU_f, ms.k)
+        return common.make_named_instance(I, W.State, "next_state", cells=lambda i, j: ev_f(ms.F(i), ms.E))
+
+
+class SensorModelModel(Contract):
+    """SensorModel.model(state_vector)
+    ensures  a Reading whose slot i holds ev(sensor_model[readings[i]], E) (E: state by name + frozen calibration)."""
+
+    key = "formak.python:SensorModel.model"
+    prefix = "C05.py.SensorModel.model"
+
+    def setup(self, I):
+        W = FilterWorld(I)
+        I.path.ghost["world"] = W
+        I.path.ghost["site"] = self.prefix
+        st = W.state()
+        return Call([W.sensor_model, st], {}, W=W, state=st, state_data=st.fields["data"], old=dict(W.sensor_model.fields))
+
+    def post(self, I, call, outcome):
+        P = I.path
+        W, ms, pre = call.W, call.W.ms, self.prefix
+        if outcome[0] == "raise":
+            P.oblige(f"{pre}.no_exception", z3.BoolVal(False), note=f"raises {outcome[1]}")
+            return
+        rv = outcome[1]
+        ok = isinstance(rv, SObj) and rv.cls is W.Reading and isinstance(rv.fields.get("data"), SMat)
+        P.oblige(f"{pre}.result_is_reading", z3.BoolVal(ok))
+        if ok:
+            d = rv.fields["data"]
+            i = z3.Int("i_any")
+            P.oblige(f"{pre}.shape", z3.And(to_int(d.rows()) == ms.m, to_int(d.cols()) == 1))
+            P.oblige(f"{pre}.by_name", z3.Implies(z3.And(i >= 0, i < ms.m), d.el(i, 0) == ev_f(ms.H(i), ms.E)))
+        for f, v in call.old.items():
+            P.oblige(f"{pre}.frame.self.{f}", z3.BoolVal(W.sensor_model.fields.get(f) is v))
+        P.oblige(f"{pre}.frame.state", z3.BoolVal(call.state.fields["data"] is call.state_data))
+
+    def apply(self, I, args, kwargs):
+        W = world_of(I)
+        ms = W.ms
+        site = I.path.ghost.get("site", "call")
+        oblige_alignment(I, f"{site}.pre.sensor_model_model", "state", args[1].fields["data"], ms.AS_f, ms.n)
+        inst = common.make_named_instance(I, W.Reading, "expected_reading", cells=lambda i, j: ev_f(ms.H(i), ms.E))
+        I.path.ghost.setdefault("expected_reading", []).append(inst.fields["data"].term)
+        return inst
+
+
+# ------------------------------------------------------------------------------------------------
+# C06: innovation filtering;  C04: prediction;  C05: update
+
+from contracts import gate  # noqa: E402
+from pvc.models import sqrt_f  # noqa: E402
+from pvc.np_model import SBoolArr  # noqa: E402
+from pvc.sym import mat_add, mat_inv, mat_mm, mat_sub, mat_T  # noqa: E402
+
+nis_f = lambda nu, sinv: mat_el(mat_mm(mat_mm(mat_T(nu), sinv), nu), 0, 0)
+
+
+def threshold(k, m):
+    """k * sqrt(2m) + m  (spec side; sqrt as the same uninterpreted function with its defining law)."""
+    return k * sqrt_f(z3.ToReal(2 * m)) + z3.ToReal(m)
+
+
+def psd_axioms(P):
+    """Exact-arithmetic facts about symmetric PSD matrices (Lean/Mathlib lemmas, see lean/kalman_psd.lean) and
+    'the gate accepts every exactly-PSD matrix' (consequence of the gate contract: lam_min >= 0, symmetric)."""
+    X, Y, Z = z3.Const("X_", Mat), z3.Const("Y_", Mat), z3.Const("Z_", Mat)
+    P.definitions.add("Lean/Mathlib: PosSemidef.mul_mul_conjTranspose_same, PosSemidef.add, Schur complement; gate accepts exact PSD")
+    P.facts.append(z3.ForAll([X], z3.Implies(gate.psd(X), gate.gate_ok(X)), patterns=[gate.gate_ok(X)]))
+    P.facts.append(z3.ForAll([X, Y], z3.Implies(gate.psd(Y), gate.psd(mat_mm(X, mat_mm(Y, mat_T(X))))), patterns=[mat_mm(X, mat_mm(Y, mat_T(X)))]))
+    P.facts.append(z3.ForAll([X, Y], z3.Implies(z3.And(gate.psd(X), gate.psd(Y)), gate.psd(mat_add(X, Y))), patterns=[mat_add(X, Y)]))
+
+
+class RemoveInnovation(Contract):
+    """ExtendedKalmanFilter.remove_innovation(innovation, S_inv)
+    requires innovation is (m,1), S_inv is (m,m), m >= 1.
+    ensures  the result is a scalar truth value, equal to
+             (config.innovation_filtering is not None) and  nu^T S_inv nu  >  k*sqrt(2m) + m   (strictly);  frame: nothing."""
+
+    key = "formak.python:ExtendedKalmanFilter.remove_innovation"
+
+    def __init__(self, enabled=True):
+        self.enabled = enabled
+        self.prefix = f"C06.py.remove_innovation[{'enabled' if enabled else 'disabled'}]"
+
+    def setup(self, I):
+        W = FilterWorld(I)
+        P = I.path
+        P.ghost["world"] = W
+        P.ghost["site"] = self.prefix
+        k = None
+        if self.enabled:
+            k = P.fresh_real("editing_threshold")
+            W.config.fields["innovation_filtering"] = SReal(k)
+        else:
+            W.config.fields["innovation_filtering"] = None
+        m = W.ms.m
+        nu = SMat(z3.Const("innovation", Mat), shape=(SInt(m), 1), ident=object())
+        sinv = SMat(z3.Const("S_inv", Mat), shape=(SInt(m), SInt(m)), ident=object())
+        return Call([W.ekf, nu, sinv], {}, W=W, nu=nu, sinv=sinv, k=k)
+
+    def post(self, I, call, outcome):
+        P = I.path
+        W, ms, pre = call.W, call.W.ms, self.prefix
+        if outcome[0] == "raise":
+            P.oblige(f"{pre}.no_exception", z3.BoolVal(False), note=f"raises {outcome[1]}")
+            return
+        rv = outcome[1]
+        if not self.enabled:
+            P.oblige(f"{pre}.disabled_never_discards", z3.BoolVal(rv is False))
+            W.frame_unchanged(P, pre)
+            return
+        # scalar truth value
+        if isinstance(rv, SBoolArr):
+            P.oblige(f"{pre}.scalar_result", z3.And(to_int(rv.shape[0]) == 1, to_int(rv.shape[1]) == 1))
+            val = rv.cells(z3.IntVal(0), z3.IntVal(0))
+        elif isinstance(rv, bool):
+            P.oblige(f"{pre}.scalar_result", z3.BoolVal(True))
+            val = z3.BoolVal(rv)
+        else:
+            from pvc.sym import SBool
+
+            P.oblige(f"{pre}.scalar_result", z3.BoolVal(isinstance(rv, SBool)))
+            if not isinstance(rv, SBool):
+                return
+            val = rv.z
+        sq = sqrt_f(z3.ToReal(2 * ms.m))
+        P.define(z3.And(sq >= 0, sq * sq == z3.ToReal(2 * ms.m)), "sqrt law")
+        want = nis_f(call.nu.term, call.sinv.term) > threshold(call.k, ms.m)
+        P.oblige(f"{pre}.decision", val == want, theory="euf")
+        W.frame_unchanged(P, pre)
+
+    def apply(self, I, args, kwargs):
+        W = world_of(I)
+        nu, sinv = args[1], args[2]
+        cfg = W.config.fields["innovation_filtering"]
+        if cfg is None:
+            return False
+        m = W.ms.m
+        sq = sqrt_f(z3.ToReal(2 * m))
+        I.path.define(z3.And(sq >= 0, sq * sq == z3.ToReal(2 * m)), "sqrt law")
+        return wrap(nis_f(nu.term, sinv.term) > threshold(to_real(cfg), m))
+
+
+class ProcessModel(Contract):
+    """ExtendedKalmanFilter.process_model(dt, state, covariance, control=None)      [C04]
+    requires covariance.data and self.process_noise are valid covariances (exactly PSD).
+    ensures  never raises;  result.state[s] = ev(state_model[s], E) for every state symbol s;
+             result.covariance.data = G P G^T + V M V^T  with G, V the process / control Jacobians at the input and M = self.process_noise;
+    frame    state, covariance, control, self.* unchanged (=> repeating the call gives the identical result)."""
+
+    key = "formak.python:ExtendedKalmanFilter.process_model"
+
+    def __init__(self, control_none=False):
+        self.control_none = control_none
+        self.prefix = f"C04.py.process_model[control_{'none' if control_none else 'given'}]"
+
+    def setup(self, I):
+        W = FilterWorld(I)
+        P = I.path
+        P.ghost["world"] = W
+        P.ghost["site"] = self.prefix
+        st, cov = W.state(), W.covariance()
+        ctl = None if self.control_none else W.control()
+        if self.control_none:
+            j = z3.Int("jz")
+            P.facts.append(z3.ForAll([j], z3.Implies(z3.And(j >= 0, j < W.ms.k), lookup_f(W.ms.E, W.ms.AU_f(j)) == 0)))
+        psd_axioms(P)
+        P.assume(gate.psd(cov.fields["data"].term))
+        P.assume(gate.psd(W.process_noise.term))
+        return Call([W.ekf, W.dt(), st, cov, ctl], {}, W=W, state=st, cov=cov, ctl=ctl, snap={"state": st.fields["data"], "cov": cov.fields["data"], "ctl": ctl.fields["data"] if ctl else None, "Pterm": cov.fields["data"].term})
+
+    def post(self, I, call, outcome):
+        P = I.path
+        W, ms, pre = call.W, call.W.ms, self.prefix
+        if outcome[0] == "raise":
+            P.oblige(f"{pre}.no_exception", z3.BoolVal(False), note=f"raises {outcome[1]}")
+            return
+        rv = outcome[1]
+        ok = isinstance(rv, tuple) and len(rv) == 2 and all(isinstance(x, SObj) for x in rv) and rv[0].cls is W.State and rv[1].cls is W.Covariance
+        P.oblige(f"{pre}.result_shape", z3.BoolVal(ok))
+        if ok:
+            sd, cd = rv[0].fields["data"], rv[1].fields["data"]
+            i, j = z3.Int("i_any"), z3.Int("j_any")
+            P.oblige(f"{pre}.state", z3.Implies(z3.And(i >= 0, i < ms.n), sd.el(i, 0) == ev_f(ms.F(i), ms.E)))
+            G = [t for t in I.path.ghost.get("jacobians", {}).get("process_jacobian", [])]
+            V = [t for t in I.path.ghost.get("jacobians", {}).get("control_jacobian", [])]
+            Pt, Mt = call.snap["Pterm"], W.process_noise.term
+            if len(G) == 1 and len(V) == 1:
+                spec = mat_add(mat_mm(G[0], mat_mm(Pt, mat_T(G[0]))), mat_mm(V[0], mat_mm(Mt, mat_T(V[0]))))
+                P.oblige(f"{pre}.covariance", cd.term == spec, theory="euf")
+            else:
+                P.oblige(f"{pre}.covariance", z3.BoolVal(False), note="Jacobians not evaluated exactly once each at the input")
+            P.oblige(f"{pre}.covariance_shape", z3.And(to_int(cd.rows()) == ms.n, to_int(cd.cols()) == ms.n))
+        W.frame_unchanged(P, pre)
+        P.oblige(f"{pre}.frame.state", z3.BoolVal(call.state.fields["data"] is call.snap["state"]))
+        P.oblige(f"{pre}.frame.covariance", z3.And(z3.BoolVal(call.cov.fields["data"] is call.snap["cov"]), z3.BoolVal(z3.eq(call.snap["cov"].term, call.snap["Pterm"]))))
+        if call.ctl is not None:
+            P.oblige(f"{pre}.frame.control", z3.BoolVal(call.ctl.fields["data"] is call.snap["ctl"]))
+
+
+class SensorUpdate(Contract):
+    """ExtendedKalmanFilter.sensor_model(state, covariance, *, sensor_key, sensor_reading)      [C05, C06]
+    requires covariance valid (exactly PSD), sensor noise Q valid, S invertible.
+    ensures  records innovations[key] = z - h(x) and sensor_prediction_uncertainty[key] = S = H P H^T + Q first;
+             if remove_innovation(z - h(x), S^-1): returns the SAME state and covariance objects;
+             else x+ = x + K (z - h(x)),  P+ = P - K H P  with K = P H^T S^-1;
+    frame    only those two dict entries of self; inputs untouched."""
+
+    key = "formak.python:ExtendedKalmanFilter.sensor_model"
+
+    def __init__(self, enabled=True):
+        self.enabled = enabled
+        self.prefix = f"C05.py.sensor_model[filtering_{'enabled' if enabled else 'disabled'}]"
+
+    def setup(self, I):
+        W = FilterWorld(I)
+        P = I.path
+        P.ghost["world"] = W
+        P.ghost["site"] = self.prefix
+        if self.enabled:
+            W.config.fields["innovation_filtering"] = SReal(P.fresh_real("editing_threshold"))
+        st, cov = W.state(), W.covariance()
+        z = common.make_named_instance(I, W.Reading, "reading")
+        psd_axioms(P)
+        P.assume(gate.psd(cov.fields["data"].term))
+        P.assume(gate.psd(W.Q.term))
+        return Call([W.ekf, st, cov], {"sensor_key": W.sensor_key, "sensor_reading": z}, W=W, state=st, cov=cov, z=z, snap={"state": st.fields["data"], "cov": cov.fields["data"], "z": z.fields["data"], "Pterm": cov.fields["data"].term, "xterm": st.fields["data"].term, "zterm": z.fields["data"].term})
+
+    def post(self, I, call, outcome):
+        P = I.path
+        W, ms, pre = call.W, call.W.ms, self.prefix
+        if outcome[0] == "raise":
+            P.oblige(f"{pre}.no_exception", z3.BoolVal(False), note=f"raises {outcome[1]}")
+            return
+        rv = outcome[1]
+        Hs = I.path.ghost.get("jacobians", {}).get("sensor_jacobian", [])
+        hx = I.path.ghost.get("expected_reading", [])
+        if len(Hs) != 1 or len(hx) != 1:
+            P.oblige(f"{pre}.evaluates_h_and_H_once", z3.BoolVal(False))
+            return
+        H, hxt = Hs[0], hx[0]
+        Pt, xt, zt, Qt = call.snap["Pterm"], call.snap["xterm"], call.snap["zterm"], W.Q.term
+        S = mat_add(mat_mm(H, mat_mm(Pt, mat_T(H))), Qt)
+        Sinv = mat_inv(S)
+        nu = mat_sub(zt, hxt)
+        K = mat_mm(Pt, mat_mm(mat_T(H), Sinv))
+        # recorded values
+        inn = [v for k, v in W.innovations.writes]
+        spu = [v for k, v in W.spu.writes]
+        P.oblige(f"{pre}.records_innovation", z3.And(z3.BoolVal(len(inn) == 1 and isinstance(inn[0], SMat)), inn[0].term == nu if inn and isinstance(inn[0], SMat) else z3.BoolVal(False)), theory="euf")
+        P.oblige(f"{pre}.records_innovation_covariance", z3.And(z3.BoolVal(len(spu) == 1 and isinstance(spu[0], SMat)), spu[0].term == S if spu and isinstance(spu[0], SMat) else z3.BoolVal(False)), theory="euf")
+        if spu and isinstance(spu[0], SMat):
+            # element-wise law (numpy broadcasting is visible here): S[i,j] = (H P H^T)[i,j] + Q[i,j]
+            i, j = z3.Int("i_any"), z3.Int("j_any")
+            hph = mat_mm(H, mat_mm(Pt, mat_T(H)))
+            P.oblige(f"{pre}.innovation_covariance_elementwise", z3.Implies(z3.And(i >= 0, i < ms.m, j >= 0, j < ms.m), z3.And(to_int(spu[0].rows()) == ms.m, to_int(spu[0].cols()) == ms.m, spu[0].el(i, j) == mat_el(hph, i, j) + W.Q.el(i, j))))
+        for k, v in W.innovations.writes + W.spu.writes:
+            P.oblige(f"{pre}.records_under_sensor_key", z3.BoolVal(k is W.sensor_key))
+        ok = isinstance(rv, tuple) and len(rv) == 2 and all(isinstance(x, SObj) for x in rv)
+        P.oblige(f"{pre}.result_shape", z3.BoolVal(ok))
+        if ok:
+            cfg = W.config.fields["innovation_filtering"]
+            discard = z3.BoolVal(False)
+            if cfg is not None:
+                sq = sqrt_f(z3.ToReal(2 * ms.m))
+                P.define(z3.And(sq >= 0, sq * sq == z3.ToReal(2 * ms.m)), "sqrt law")
+                discard = nis_f(nu, Sinv) > threshold(to_real(cfg), ms.m)
+            same = rv[0] is call.state and rv[1] is call.cov
+            if same:
+                P.oblige(f"C06.py.sensor_model[{'enabled' if self.enabled else 'disabled'}].discard_only_if_nis_exceeds", discard, theory="euf")
+            else:
+                P.oblige(f"C06.py.sensor_model[{'enabled' if self.enabled else 'disabled'}].discard_leaves_estimate_untouched", z3.Not(discard), theory="euf")
+                okc = rv[0].cls is W.State and rv[1].cls is W.Covariance
+                P.oblige(f"{pre}.result_types", z3.BoolVal(okc))
+                if okc:
+                    P.oblige(f"{pre}.state_update", rv[0].fields["data"].term == mat_add(xt, mat_mm(K, nu)), theory="euf")
+                    P.oblige(f"{pre}.covariance_update", rv[1].fields["data"].term == mat_sub(Pt, mat_mm(K, mat_mm(H, Pt))), theory="euf")
+        W.frame_unchanged(P, pre)
+        P.oblige(f"{pre}.frame.state", z3.And(z3.BoolVal(call.state.fields["data"] is call.snap["state"]), z3.BoolVal(z3.eq(call.snap["state"].term, xt))))
+        P.oblige(f"{pre}.frame.covariance", z3.And(z3.BoolVal(call.cov.fields["data"] is call.snap["cov"]), z3.BoolVal(z3.eq(call.snap["cov"].term, Pt))))
+        P.oblige(f"{pre}.frame.reading", z3.And(z3.BoolVal(call.z.fields["data"] is call.snap["z"]), z3.BoolVal(z3.eq(call.snap["z"].term, zt))))
+
+
+def filter_callees():
+    c = callees()
+    for w in ("process_jacobian", "control_jacobian", "sensor_jacobian"):
+        c[f"formak.python:ExtendedKalmanFilter.{w}"] = JacobianContract(w)
+    c[ModelModel.key] = ModelModel()
+    c[SensorModelModel.key] = SensorModelModel()
+    c[RemoveInnovation.key] = RemoveInnovation()
+    c[gate.AssertValidCovariance.key] = gate.AssertValidCovariance()
+    return c
+
+
+# ------------------------------------------------------------------------------------------------
+# SensorModel.__init__ : establishes the per-sensor part of the representation invariant (C05 noise container)
+
+
+class BasicBlockInit(Contract):
+    """BasicBlock.__init__(arglist=, statements=, config=): stores them (compilation: C01/C08 contracts)."""
+
+    key = "formak.python:BasicBlock.__init__"
+
+    def apply(self, I, args, kwargs):
+        obj = args[0]
+        obj.fields["_arglist"] = kwargs["arglist"]
+        obj.fields["_exprs"] = kwargs["statements"]
+        obj.fields["_config"] = kwargs["config"]
+        return None
+
+
+class PreflightModel(Contract):
+    """SensorModel.model as seen from SensorModel.__init__'s pre-flight call (result unused)."""
+
+    key = "formak.python:SensorModel.model"
+
+    def apply(self, I, args, kwargs):
+        return None
+
+
+class SensorModelInit(Contract):
+    """SensorModel.__init__(state_model, sensor_model, calibration_map, config)
+    requires calibration_map has a value for every calibration symbol (guaranteed by model_validation, C14).
+    ensures  readings = the reading names sorted; sensor_size = their number; arglist_state / _calibration = the model's symbols
+             sorted by name; Reading is a vector class over the readings and ReadingCovariance an (m x m) *covariance* class over
+             them (diagonal container for the per-reading noise, C05); calibration_vector[i] = calibration_map[ACal[i]];
+             _impl evaluates [sensor_model[r] for r in readings] over arglist_state + arglist_calibration."""
+
+    key = "formak.python:SensorModel.__init__"
+    prefix = "C05.py.SensorModel.__init__"
+    inline = ("formak.common:named_vector", "formak.common:named_covariance")
+
+    def setup(self, I):
+        from pvc.symtheory import SDictV, SSetV, real_wrap
+
+        P = I.path
+        P.ghost["site"] = self.prefix
+        mod = I.load_module("formak.python")
+        cls = I.module_attr(mod, "SensorModel")
+        S = SSetV(P, "state_set", "set")
+        Cal = SSetV(P, "calibration_set", "set")
+        ui = SObj("UiModel", {"state": S, "calibration": Cal}, "ui_model")
+        sm = SDictV(P, "sensor_model", Str, Expr, StrV, ExprV)
+        cm = SDictV(P, "calibration_map", Sym, z3.RealSort(), SymV, real_wrap)
+        x = z3.Const("cx", Sym)
+        P.facts.append(z3.ForAll([x], z3.Implies(Cal.has(x), cm.has(x)), patterns=[Cal.has(x)]))
+        obj = SObj(cls, {}, "sensor_model")
+        return Call([obj, ui, sm, cm, SObj("Config", {}, "config")], {}, obj=obj, S=S, Cal=Cal, sm=sm, cm=cm)
+
+    def post(self, I, call, outcome):
+        from pvc.symtheory import card_f, srt_f
+
+        P = I.path
+        pre = self.prefix
+        if outcome[0] == "raise":
+            P.oblige(f"{pre}.no_exception", z3.BoolVal(False), note=f"raises {outcome[1]}")
+            return
+        o, sm, cm, S, Cal = call.obj, call.sm, call.cm, call.S, call.Cal
+        f = o.fields
+        i = z3.Int("i_any")
+        sk = sm.sorted_key_fn(P)
+        rd = f.get("readings")
+        ok = isinstance(rd, SSeq)
+        P.oblige(f"{pre}.readings_is_list", z3.BoolVal(ok))
+        if ok:
+            P.oblige(f"{pre}.readings_sorted_names", z3.And(rd.len_z() == sm.n, z3.Implies(z3.And(i >= 0, i < sm.n), rd.at(i).z == sk(i))))
+        P.oblige(f"{pre}.sensor_size", to_int(f.get("sensor_size")) == sm.n)
+        for fld, st in (("arglist_state", S), ("arglist_calibration", Cal)):
+            a = f.get(fld)
+            okk = isinstance(a, SSeq)
+            P.oblige(f"{pre}.{fld}_sorted_by_name", z3.And(a.len_z() == card_f(st.term), z3.Implies(z3.And(i >= 0, i < card_f(st.term)), a.at(i).z == srt_f(st.term, i))) if okk else z3.BoolVal(False))
+        for fld, kind in (("Reading", "vector"), ("ReadingCovariance", "covariance"), ("State", "vector"), ("Covariance", "covariance"), ("Calibration", "vector")):
+            c = f.get(fld)
+            try:
+                which, _, al = common.class_closure_vars(c)
+            except Exception:
+                which, al = None, None
+            P.oblige(f"{pre}.{fld}_is_{kind}_container", z3.BoolVal(which == kind))
+            if fld in ("Reading", "ReadingCovariance") and al is not None and ok:
+                P.oblige(f"{pre}.{fld}_over_readings", z3.BoolVal(al is rd))
+        cv = f.get("calibration_vector")
+        okc = isinstance(cv, SMat)
+        P.oblige(f"{pre}.calibration_vector_is_array", z3.BoolVal(okc))
+        if okc:
+            nc = card_f(Cal.term)
+            P.oblige(f"{pre}.calibration_vector", z3.And(to_int(cv.rows()) == nc, to_int(cv.cols()) == 1, z3.Implies(z3.And(i >= 0, i < nc), cv.el(i, 0) == cm.get(srt_f(Cal.term, i)))))
+        blk = f.get("_impl")
+        okb = isinstance(blk, SObj) and isinstance(blk.fields.get("_exprs"), SSeq) and isinstance(blk.fields.get("_arglist"), SSeq)
+        P.oblige(f"{pre}.impl_block", z3.BoolVal(okb))
+        if okb:
+            ex, al = blk.fields["_exprs"], blk.fields["_arglist"]
+            ns = card_f(S.term)
+            P.oblige(f"{pre}.impl_statements_by_reading", z3.And(ex.len_z() == sm.n, z3.Implies(z3.And(i >= 0, i < sm.n), ex.at(i).z == sm.get(sk(i)))))
+            P.oblige(f"{pre}.impl_arglist", z3.And(al.len_z() == ns + card_f(Cal.term), z3.Implies(z3.And(i >= 0, i < ns + card_f(Cal.term)), al.at(i).z == z3.If(i < ns, srt_f(S.term, i), srt_f(Cal.term, i - ns)))))
+
+
+def sensor_init_callees():
+    c = dict(common.COMMON_APPLY)
+    c[BasicBlockInit.key] = BasicBlockInit()
+    c[PreflightModel.key] = PreflightModel()
+    return c
+
+
+# ------------------------------------------------------------------------------------------------
+# _construct_process: process-noise matrix (C04) and flattened Jacobian programs (C03 invariant)
+
+
+class UiModelShape:
+    """Symbolic accepted ui model: declared symbol containers, dt, update expressions."""
+
+    def __init__(self, I, container="set"):
+        from pvc.symtheory import SDictV, SSetV
+
+        P = I.path
+        self.S = SSetV(P, "state_set", container)
+        self.Cal = SSetV(P, "calibration_set", container)
+        self.U = SSetV(P, "control_set", container)
+        self.dt = SymV(z3.Const("dt_sym", Sym))
+        self.sm = SDictV(P, "state_model", Sym, Expr, SymV, ExprV)
+        x = z3.Const("mx", Sym)
+        # accepted by ui.Model: update expressions cover the state exactly
+        P.facts.append(z3.ForAll([x], self.sm.has(x) == self.S.has(x), patterns=[self.sm.has(x)]))
+        self.obj = SObj("UiModel", {"state": self.S, "calibration": self.Cal, "control": self.U, "dt": self.dt, "state_model": self.sm}, "ui_model")
+
+
+class ModelInitApply(Contract):
+    """python.Model.__init__ as seen by _construct_process (its own verification: C01.py.Model.__init__)."""
+
+    key = "formak.python:Model.__init__"
+
+    def apply(self, I, args, kwargs):
+        from pvc.symtheory import card_f
+
+        obj = args[0]
+        ui = kwargs["symbolic_model"]
+        cm = kwargs["calibration_map"]
+        S, Cal, U = ui.fields["state"], ui.fields["calibration"], ui.fields["control"]
+        AS, ACal, AU = S.sorted_seq(), Cal.sorted_seq(), U.sorted_seq()
+        arglist = SSeq.from_list([ui.fields["dt"]]).concat(AS).concat(ACal).concat(AU)
+        arglist.pvc_type = "list"
+        sm = ui.fields["state_model"]
+        exprs = SSeq(AS.length, lambda i: ExprV(sm.get(AS.at(i).z)), "state_model_stmts")
+        blk = make_block(I, arglist, exprs, "model_block")
+        nc = card_f(Cal.term)
+        I.raise_if(z3.And(nc > 0, cm.n != nc), "ModelConstructionError")
+        cv = SMat(z3.Const(I.path.names.fresh("calibration_vector"), Mat), cells=lambda i, j: cm.get(ACal.at(i).z), shape=(SInt(nc), 1), ident=object())
+        obj.fields.update(
+            {
+                "state_size": SInt(card_f(S.term)),
+                "calibration_size": SInt(nc),
+                "control_size": SInt(card_f(U.term)),
+                "arglist_state": AS,
+                "arglist_calibration": ACal,
+                "arglist_control": AU,
+                "arglist": arglist,
+                "calibration_vector": cv,
+                "_impl": blk,
+            }
+        )
+        return None
+
+
+class ConstructProcessNoise(Contract):
+    """ExtendedKalmanFilter._construct_process(state_model, process_noise, calibration_map, config)
+    requires process_noise keys are declared controls (model_validation), self.arglist_* already set by __init__,
+             the assembled noise matrix passes the validity gate (noise values >= 0: C14).
+    ensures  raises AssertionError <=> len(process_noise) != number of controls; otherwise
+             self.process_noise is k x k with M[i,j] = process_noise[AU[i]] if i == j (0 if that control has no entry) and 0 otherwise;
+             _impl_process_jacobian / _impl_control_jacobian are blocks over the model's arglist whose statement r*w+s is
+             diff(state_model[AS[r]], X[s]) (X = AS, w = n; resp. X = AU, w = k); calibration_vector is the model's."""
+
+    key = "formak.python:ExtendedKalmanFilter._construct_process"
+    prefix = "C04.py._construct_process"
+    inline = ("formak.python:BasicBlock.__len__",)
+
+    def setup(self, I):
+        from pvc.symtheory import SDictV, card_f, real_wrap
+
+        P = I.path
+        P.ghost["site"] = self.prefix
+        ui = UiModelShape(I)
+        pn = SDictV(P, "process_noise", Sym, z3.RealSort(), SymV, real_wrap)
+        x = z3.Const("px", Sym)
+        P.facts.append(z3.ForAll([x], z3.Implies(pn.has(x), ui.U.has(x)), patterns=[pn.has(x)]))
+        cm = SDictV(P, "calibration_map", Sym, z3.RealSort(), SymV, real_wrap)
+        P.facts.append(z3.ForAll([x], cm.has(x) == ui.Cal.has(x), patterns=[cm.has(x)]))
+        P.assume(cm.n == card_f(ui.Cal.term))  # same key set => same size (model_validation's guarantee)
+        mod = I.load_module("formak.python")
+        cls = I.module_attr(mod, "ExtendedKalmanFilter")
+        ekf = SObj(cls, {"state_size": SInt(card_f(ui.S.term)), "control_size": SInt(card_f(ui.U.term)), "calibration_size": SInt(card_f(ui.Cal.term)), "arglist_state": ui.S.sorted_seq(), "arglist_control": ui.U.sorted_seq(), "arglist_calibration": ui.Cal.sorted_seq()}, "ekf")
+        X = z3.Const("anyM", Mat)
+        P.facts.append(z3.ForAll([X], gate.gate_ok(X), patterns=[gate.gate_ok(X)]))  # requires: the assembled matrix is a valid covariance
+        return Call([ekf], {"state_model": ui.obj, "process_noise": pn, "calibration_map": cm, "config": SObj("Config", {}, "config")}, ekf=ekf, ui=ui, pn=pn, cm=cm)
+
+    def post(self, I, call, outcome):
+        from pvc.symtheory import card_f, srt_f
+        from pvc.sympy_model import RowMajor
+
+        P = I.path
+        pre = self.prefix
+        ui, pn, ekf = call.ui, call.pn, call.ekf
+        k = card_f(ui.U.term)
+        n = card_f(ui.S.term)
+        if outcome[0] == "raise":
+            P.oblige(f"{pre}.noise_arity.only_assertionerror", z3.BoolVal(outcome[1] == "AssertionError"), note=f"raises {outcome[1]}")
+            P.oblige(f"{pre}.noise_arity.raises_only_if", pn.n != k)
+            return
+        P.oblige(f"{pre}.noise_arity.raises_if", pn.n == k)
+        M = ekf.fields.get("process_noise")
+        ok = isinstance(M, SMat)
+        P.oblige(f"{pre}.noise_matrix_is_array", z3.BoolVal(ok))
+        i, j = z3.Int("i_any"), z3.Int("j_any")
+        if ok:
+            AU = lambda t: srt_f(ui.U.term, t)
+            want = z3.If(z3.And(i == j, pn.has(AU(i))), pn.get(AU(i)), z3.RealVal(0))
+            P.oblige(f"{pre}.noise_matrix", z3.And(to_int(M.rows()) == k, to_int(M.cols()) == k, z3.Implies(z3.And(i >= 0, i < k, j >= 0, j < k), M.el(i, j) == want)))
+        for fld, w, X in (("_impl_process_jacobian", n, lambda t: srt_f(ui.S.term, t)), ("_impl_control_jacobian", k, lambda t: srt_f(ui.U.term, t))):
+            blk = ekf.fields.get(fld)
+            from pvc.interp import PyList, as_seq2
+
+            okb = isinstance(blk, SObj) and isinstance(blk.fields.get("_exprs"), (SSeq, PyList))
+            P.oblige(f"{pre}.{fld}.is_block", z3.BoolVal(okb))
+            if not okb:
+                continue
+            ex = as_seq2(blk.fields["_exprs"])
+            P.oblige(f"{pre}.{fld}.length", ex.len_z() == n * w)
+            for rm in P.ghost.get("row_major", []):
+                P.define(rm.law(i, j), "D-diff: iterating a sympy Matrix is row-major")
+            F_i = ui.sm.get(srt_f(ui.S.term, i))
+            if isinstance(blk.fields["_exprs"], PyList) and not blk.fields["_exprs"].items:
+                P.oblige(f"{pre}.{fld}.row_major_layout", n * w == 0)  # empty program: only correct when there is nothing to differentiate
+            else:
+                P.oblige(f"{pre}.{fld}.row_major_layout", z3.Implies(z3.And(i >= 0, i < n, j >= 0, j < w), ex.at(i * w + j).z == diff_f(F_i, X(j))))
+            al = blk.fields["_arglist"]
+            P.oblige(f"{pre}.{fld}.arglist_is_models", z3.BoolVal(al is ekf.fields["_state_model"].fields["arglist"]))
+        sm = ekf.fields.get("_state_model")
+        P.oblige(f"{pre}.calibration_vector_is_models", z3.BoolVal(isinstance(sm, SObj) and ekf.fields.get("calibration_vector") is sm.fields.get("calibration_vector")))
+
+
+def construct_callees():
+    c = dict(common.COMMON_APPLY)
+    c[BasicBlockInit.key] = BasicBlockInit()
+    c[ModelInitApply.key] = ModelInitApply()
+    c[gate.AssertValidCovariance.key] = gate.AssertValidCovariance()
+    return c
